@@ -383,7 +383,8 @@ PROPS["C16"] = dict(
     ],
     level_text="Bounded model checking with Kani/CBMC of the real Card child API (all 43 kinds, symbolic child index) "
                "and of Module get/walk/insert/remove/replace/swap on a depth-3 skeleton with symbolic CardIndex "
-               "values, against a tree-edit model and a structural fingerprint.",
+               "values, against a tree-edit model and a structural fingerprint; remove_child per list-like kind succeeds exactly "
+               "for the enumerated children (symbolic index). Most edit harnesses are tier x (did not close).",
     level_note="Trusted: Kani/CBMC/CaDiCaL; the documented child order encoded in harness/src/c16.rs; shapes are "
                "concrete (kinds, arities, skeleton), indices symbolic.",
     design_ref="DESIGN.md §3 C16",
@@ -531,15 +532,18 @@ PROPS["C01"] = dict(
     level_text="Bounded model checking with Kani/CBMC of the real value operators and of the real interpreter loop on "
                "short compiler-shaped instruction sequences with solver-chosen literal operands (all i64): the "
                "run-time half of 'compiled programs compute what the card language defines', per instruction and "
-               "for call/return, locals and jumps. The program dimension is enumerated, not solver-quantified.",
+               "for call/return, locals and jumps. The program dimension is enumerated, not solver-quantified. Compiler half: "
+               "the real resolve_var on one function level with three locals whose names are solver-chosen (shadowing) "
+               "and any queried name, through a hook.",
     level_note="Trusted: Kani/CBMC; the reference semantics in harness/src/c01.rs; that the hand-assembled shapes "
-               "match what the compiler emits (the compiler is outside symbolic reach).",
+               "match what the compiler emits (compile() as a whole is outside symbolic reach; its variable-resolution unit "
+               "is driven through Compiler::verif_* hooks).",
     mem_gb=18, jobs=3,
     design_ref="DESIGN.md §3 C01, §3.0",
     cap=dict(quick=600, thorough=900),
     harnesses=[
         _cx("cx_resolve_var_d0", "quick", bounds="compiler: resolve_var in one function with three locals whose names are solver-chosen letters (shadowing occurs) and any queried name: the innermost binding, else a global"),
-        _cx("cx_scope_end_emits", "thorough", bounds="compiler: scope_end releases exactly the locals of the scope (Pop / CloseUpvalue), outer locals survive"),
+        _cx("cx_scope_end_emits", "x", bounds="compiler: scope_end releases exactly the locals of the scope (Pop / CloseUpvalue), outer locals survive"),
         H("c01", "c01_value_add_int_int", bounds="Integer + Integer, all i64 pairs without overflow"),
         H("c01", "c01_value_sub_int_int", "thorough", bounds="Integer - Integer"),
         H("c01", "c01_value_mul_int_int", bounds="Integer * Integer"),
@@ -607,7 +611,8 @@ PROPS["C04"] = dict(
     ],
     level_text="Bounded model checking with Kani/CBMC of the interpreter's behaviour at its resource limits and on "
                "wrong-kind operands: all operand values, small concrete stack sizes / limits / budgets; every "
-               "reachable panic, overflow, out-of-bounds access or failed unwrap in the driven code is a counterexample.",
+               "reachable panic, overflow, out-of-bounds access or failed unwrap in the driven code is a counterexample; the "
+               "string-operand decoders (decode_str, read_str) are total on arbitrary bytes.",
     level_note="Trusted: Kani/CBMC; sizes are concrete and small; compile-time totality is not covered.",
     mem_gb=18, jobs=3,
     design_ref="DESIGN.md §3 C04",
@@ -743,9 +748,9 @@ PROPS["C10"] = dict(
         H("c10", "c10_decode_str_total_8", "thorough", bounds="decode_str on any 0..=8 bytes"),
         H("c10", "c10_read_str_total_8", bounds="read_str at any position of any 0..=8 data bytes: total, inside the data"),
         H("c10", "c10_span_table", bounds="span for every byte value"),
-        _cx("cx_resolve_var_d2", "thorough", bounds="compiler: closure in closure in function, 2+1+1 locals with solver-chosen names, 2 earlier resolves per closure level, any queried name: the upvalue index is within the closure's own list and the chain designates the innermost binding"),
-        _cx("cx_resolve_var_d2b", "thorough", bounds="same with 3+2+0 locals, 1 earlier resolve"),
-        _cx("cx_scope_end_emits", "thorough", bounds="compiler: scope_end emits one Pop/CloseUpvalue per local of the scope"),
+        _cx("cx_resolve_var_d2", "x", bounds="(did not close: 13.5 GB after 19 min) compiler: closure in closure in function, 2+1+1 locals with solver-chosen names, 2 earlier resolves per closure level, any queried name: the upvalue index is within the closure's own list and the chain designates the innermost binding"),
+        _cx("cx_resolve_var_d2b", "x", bounds="same with 3+2+0 locals, 1 earlier resolve (not measured after d2 did not close)"),
+        _cx("cx_scope_end_emits", "x", bounds="compiler: scope_end emits one Pop/CloseUpvalue per local of the scope"),
         H("c08", "cx_compile_probe", "x", bounds="probe: compile main=[SetGlobalVar g = ScalarInt x] with an empty std module: did not close (25 min, 4.5 GB)", stubbing=True, timeout=1500),
     ],
 )
@@ -1006,15 +1011,18 @@ PROPS["C06"] = dict(
     assumptions=["instruction functions driven directly on a small VM (stack 8-9, 3 frames) with the operands compiler.rs emits; "
                  "alloc::fmt::format stubbed; open-upvalue list walks bounded to 3 iterations (unwinding assertion)"],
     level_text="Bounded model checking with Kani/CBMC of the interpreter's upvalue instruction functions on a small VM (one "
-               "closure, all slot values, enumerated frame offsets) and of the closure label function over a bounded index space.",
-    level_note="Trusted: Kani/CBMC; shapes enumerated; sharing/nesting/return and the compiler not covered.",
+               "closure, all slot values, enumerated frame offsets), of the closure label function over a bounded index space, and of "
+               "the compiler's real resolve_var/resolve_upvalue for a closure in a function with 3+1 locals of solver-chosen "
+               "names: the upvalue designates the innermost binding of the name in the enclosing function.",
+    level_note="Trusted: Kani/CBMC; shapes enumerated; sharing/nesting/return not covered; of the compiler only the "
+               "variable-resolution unit, one closure level deep.",
     design_ref="DESIGN.md §3 C06",
     cap=dict(quick=600, thorough=900), mem_gb=18, jobs=3,
     harnesses=[
         _cx("cx_resolve_var_d1", "quick", bounds="compiler: a closure in a function with 3+1 locals (solver-chosen names, shadowing occurs), one earlier resolve, any queried name: the upvalue designates the innermost binding in the enclosing function and marks it captured"),
-        _cx("cx_resolve_var_d1b", "thorough", bounds="same with 2+2 locals and two earlier resolves"),
-        _cx("cx_resolve_var_d2", "thorough", bounds="closure in closure in function, 2+1+1 locals, two earlier resolves per level: non-local upvalue chains"),
-        _cx("cx_resolve_var_d2b", "thorough", bounds="closure in closure, 3+2+0 locals"),
+        _cx("cx_resolve_var_d1b", "x", bounds="same with 2+2 locals and two earlier resolves"),
+        _cx("cx_resolve_var_d2", "x", bounds="(did not close: 13.5 GB after 19 min) closure in closure in function, 2+1+1 locals, two earlier resolves per level: non-local upvalue chains"),
+        _cx("cx_resolve_var_d2b", "x", bounds="closure in closure, 3+2+0 locals"),
         _vm("c06", "c06_capture_off0_idx0", "x", dispatches=3, bounds="capture local 0 at frame offset 0", objects=True),
         _vm("c06", "c06_capture_off0_idx1", "x", dispatches=3, bounds="capture local 1 at frame offset 0", objects=True),
         _vm("c06", "c06_capture_off2_idx0", "x", dispatches=3, bounds="capture local 0 at frame offset 2", objects=True),
